@@ -67,7 +67,17 @@ pub fn check_nodes(text: &str, nodes: &[Node], out: &mut Outcome) -> usize {
         );
       }
     }
-    if let Some(name) = &n.name {
+    if n.kind == "import-module" {
+      // the location must spell the dotted path (whitespace / comments between the parts allowed)
+      let got = slice(text, &offs, &n.loc);
+      let spelled: Option<String> = got.map(|g| tokenize(g).iter().filter(|t| !t.is_comment()).map(|t| t.text.clone()).collect::<Vec<_>>().join(""));
+      if spelled.as_deref() != n.name.as_deref() {
+        out.fail(
+          "ast-location/name-slice-mismatch/import-module".to_string(),
+          format!("import of module `{}` has module location {} which spells {:?}\n{}", n.name.as_deref().unwrap_or(""), loc_str(&n.loc), got, context(text, &n.loc)),
+        );
+      }
+    } else if let Some(name) = &n.name {
       let got = slice(text, &offs, &n.loc);
       if got != Some(name.as_str()) {
         out.fail(
@@ -193,7 +203,7 @@ impl Prop for C14 {
       // ground truth: identifier tokens <-> name nodes
       let toks = tokenize(text);
       let mut name_locs: HashMap<(u32, u32), &Node> = HashMap::new();
-      for nd in nodes.iter().filter(|n| n.name.is_some()) {
+      for nd in nodes.iter().filter(|n| n.name.is_some() && n.kind != "import-module") {
         name_locs.insert((nd.loc.start.0, nd.loc.start.1), nd);
       }
       for t in toks.iter().filter(|t| matches!(t.kind, Kind::Upper | Kind::Lower) || (t.kind == Kind::Keyword && t.text == "this")) {
